@@ -115,6 +115,7 @@ class P(Property):
         ids = list(range(0, 301))
         for bnd in B:
             ids += [bnd + d for d in range(-2, 3) if bnd + d < 2 ** 62]
+        ids += [2 ** 32 - 1, 2 ** 32, 2 ** 32 + 1]
         ids += [4 * i + k for i in idx for k in range(4)]
         ids += [rng.getrandbits(rng.choice([8, 16, 31, 33, 62, 62])) for _ in range(300 if tier == 'quick' else 30000)]
         for v in ids + big:
@@ -216,6 +217,10 @@ class P(Property):
         if w[0] == 'vi.dec' and w[1] != '-' and len(w[1]) > 2:
             h = w[1]
             return ['vi.dec ' + (h[:-2] or '-')]
+        if w[0] in ('vi.enc', 'vi.size', 'vi.try64', 'vi.tryus', 'vi.push', 'vi.sess', 'sid', 'sid.disp', 'sid.enc', 'st.enc') \
+                and len(w) == 2 and w[1].isdigit() and int(w[1]) > 0:
+            x = int(w[1])
+            return ['%s %d' % (w[0], c) for c in sorted({x // 2, x - 1})]
         return []
 
 
